@@ -415,6 +415,52 @@ impl Engine {
             )
             .map_err(|e| e.to_string())?;
         }
+        // PostgreSQL built-ins the stock rendering uses and SQLite lacks (or has with another arity)
+        conn.create_scalar_function("CHAR_LENGTH", 1, FunctionFlags::SQLITE_UTF8 | FunctionFlags::SQLITE_DETERMINISTIC, |ctx| {
+            Ok(match ctx.get_raw(0) {
+                ValueRef::Null => None,
+                ValueRef::Text(t) => Some(String::from_utf8_lossy(t).chars().count() as i64),
+                ValueRef::Integer(i) => Some(i.to_string().len() as i64),
+                ValueRef::Real(f) => Some(format!("{}", f).len() as i64),
+                ValueRef::Blob(b) => Some(b.len() as i64),
+            })
+        })
+        .map_err(|e| e.to_string())?;
+        conn.create_scalar_function("CONCAT", -1, FunctionFlags::SQLITE_UTF8 | FunctionFlags::SQLITE_DETERMINISTIC, |ctx| {
+            // NULL arguments are ignored
+            let mut out = String::new();
+            for i in 0..ctx.len() {
+                match ctx.get_raw(i) {
+                    ValueRef::Null => {}
+                    ValueRef::Text(t) => out.push_str(&String::from_utf8_lossy(t)),
+                    ValueRef::Integer(v) => out.push_str(&v.to_string()),
+                    ValueRef::Real(f) => out.push_str(&format!("{}", f)),
+                    ValueRef::Blob(_) => {}
+                }
+            }
+            Ok(out)
+        })
+        .map_err(|e| e.to_string())?;
+        conn.create_scalar_function("TRUNC", -1, FunctionFlags::SQLITE_UTF8 | FunctionFlags::SQLITE_DETERMINISTIC, |ctx| {
+            let x = match ctx.get_raw(0) {
+                ValueRef::Null => return Ok(Value::Null),
+                ValueRef::Integer(i) => i as f64,
+                ValueRef::Real(f) => f,
+                _ => return Ok(Value::Null),
+            };
+            let d = if ctx.len() > 1 {
+                match ctx.get_raw(1) {
+                    ValueRef::Integer(i) => i as i32,
+                    ValueRef::Real(f) => f as i32,
+                    _ => return Ok(Value::Null),
+                }
+            } else {
+                0
+            };
+            let m = 10f64.powi(d);
+            Ok(Value::Real((x * m).trunc() / m))
+        })
+        .map_err(|e| e.to_string())?;
         for (name, sample, sqrt) in [
             ("VARIANCE", true, false),
             ("VAR_SAMP", true, false),
